@@ -894,6 +894,12 @@ type burstParams struct {
 	Calls int   `json:"calls"` // per connection
 	Sizes []int `json:"sizes"` // request body sizes, cycled
 	Cap   int   `json:"cap"`   // expected number of handlers that can be admitted at once
+	// BigFirst: requests larger than the server's RequestBufSize are issued first and the rest
+	// only after their handlers were entered (so that a large request never waits for memory)
+	BigFirst bool `json:"bigFirst"`
+	// HoldMs: after the pile-up keep the handlers held for this long (probe of the server's
+	// packet read deadline; the only deliberate wall-clock wait of this driver)
+	HoldMs int `json:"holdMs"`
 }
 
 func opBurst(q request) map[string]any {
@@ -952,12 +958,30 @@ func opBurst(q request) map[string]any {
 	_, limit := s.srv.RequestsMemory()
 	_, maxW := s.srv.WorkersPoolSize()
 	var all []*callSt
+	type pendingStart struct {
+		id   int
+		cl   string
+		size int
+	}
+	var later []pendingStart
 	id := 0
 	for ci, c := range clients {
 		for j := 0; j < q.Burst.Calls; j++ {
 			id++
 			size := q.Burst.Sizes[(ci*q.Burst.Calls+j)%len(q.Burst.Sizes)]
+			if q.Burst.BigFirst && size <= q.Env.BufSize {
+				later = append(later, pendingStart{id, c, size})
+				continue
+			}
 			all = append(all, s.start(id, c, 0, false, size))
+		}
+	}
+	if q.Burst.BigFirst {
+		for _, cs := range all {
+			waitCh(cs.entered, 20*time.Second)
+		}
+		for _, p := range later {
+			all = append(all, s.start(p.id, p.cl, 0, false, p.size))
 		}
 	}
 	total := len(all)
@@ -980,6 +1004,9 @@ func opBurst(q request) map[string]any {
 		cur, _ := s.srv.RequestsMemory()
 		ev["mem"], ev["running"], ev["waiting"] = cur, s.running, s.srv.RequestsCurrent()
 	})
+	if q.Burst.HoldMs > 0 {
+		time.Sleep(time.Duration(q.Burst.HoldMs) * time.Millisecond)
+	}
 	// release the held handlers one at a time, in random order among those that entered
 	released := map[int]bool{}
 	for len(released) < total {
@@ -1017,6 +1044,10 @@ func opBurst(q request) map[string]any {
 			cur, _ := s.srv.RequestsMemory()
 			ev["mem"], ev["running"], ev["waiting"] = cur, s.running, s.srv.RequestsCurrent()
 		})
+	}
+	// every request must be answered while both sides are still open
+	for _, cs := range all {
+		waitCh(cs.returned, time.Duration(q.Watchdog)*time.Millisecond)
 	}
 	hung := s.finish(time.Duration(q.Watchdog) * time.Millisecond)
 	f, err := os.Create(q.Out)
